@@ -26,6 +26,8 @@ def make_param(eng, st, name, kind, nullable):
     if is_ref_kind(kind):
         lo = 0 if nullable else 1
         st.assume(z3.And(v.t >= lo, v.t < st.heap.alloc))
+        if not nullable:
+            st.heap.note_pre(v.t)
     return v
 
 
@@ -55,6 +57,15 @@ def verify_function(eng, qualname):
     old = (f.entry_env, f.entry_heap)
     for label, clause in c.labelled(c.requires, 'pre'):
         st.assume(eval_bool(eng, clause, st.env, st))
+    # axioms: closed lemmas over the spec vocabulary; proved here WITHOUT the precondition, then assumed
+    for label, clause in c.labelled(c.axioms, 'axiom'):
+        t = eval_bool(eng, clause, st.env, st)
+        blank = State()
+        blank.pc = [p for p in st.pc if z3.is_quantifier(p)]     # definitional axioms of the spec functions only
+        eng.obls.append(__import__('pyvc.core', fromlist=['Obligation']).Obligation(
+            "%s:%s" % (qualname.replace('fast_ticc.', ''), 'lemma:' + label), 'lemma', qualname, fdef.lineno,
+            blank.pc, t, [], c.props, False, []))
+        st.assume(t)
     # vacuity guard: the precondition must be satisfiable
     eng.oblige(st, "cover:requires", 'cover', z3.BoolVal(False), fdef, expect_sat=True)
     for tgt in calls.eval_assign_targets(eng, c.assigns, st.env, st):
